@@ -183,6 +183,46 @@ fn check_devfull(to: Fmt, big: bool, debug: bool, many: bool, rec: &mut Recorder
     Ok(())
 }
 
+/// Standard output that cannot take the output for another reason than a vanished
+/// pipe reader: a stream socket whose peer is gone (terminated by SIGPIPE, like a
+/// pipe), and a full pipe in non-blocking mode (EAGAIN: exit 1 with a message).
+fn check_other_stdout(kind: &str, to: Fmt, big: bool, debug: bool, via_stdin: bool, rec: &mut Recorder) -> Result<(), String> {
+    let sc = Scratch::new("c16o");
+    let mut args: Vec<OsString> = vec![format!("-t{}", to.name()).into()];
+    let pad = if big { 30_000 } else { 10 };
+    let text = if to == Fmt::Toml { toml_input(pad) } else { input_text(2, pad, 0) };
+    let mut stdin = StdinSpec::Null;
+    if via_stdin {
+        args.push(if to == Fmt::Toml { "-ftoml".into() } else { "-fjson".into() });
+        stdin = StdinSpec::Bytes(text);
+    } else {
+        let name = if to == Fmt::Toml { "in0.toml" } else { "in0.json" };
+        sc.file(name, &text);
+        args.push(name.into());
+    }
+    let spec = if kind == "socket" { StdoutSpec::ClosedSocket } else { StdoutSpec::FullNonBlockingPipe };
+    let res = run_xt(if debug { Bin::Debug } else { Bin::Release }, &args, &sc.dir, stdin, spec, vec![]);
+    let what = format!("stdout a {} ({} output, -t {}, input from {})", if kind == "socket" { "stream socket whose peer is gone" } else { "full non-blocking pipe" }, if big { "large" } else { "small" }, to.name(), if via_stdin { "stdin" } else { "a file" });
+    if res.timed_out {
+        return Err(format!("{}: the run did not end within 60 s", what));
+    }
+    if kind == "socket" {
+        if res.signal != Some(libc::SIGPIPE) {
+            return Err(format!("{}: xt ended with {} instead of being terminated by SIGPIPE", what, res.brief()));
+        }
+    } else {
+        if res.code != Some(1) {
+            return Err(format!("{}: expected exit 1, got {}", what, res.brief()));
+        }
+        if !String::from_utf8_lossy(&res.stderr).starts_with("xt error") {
+            return Err(format!("{}: no 'xt error' message: {:?}", what, String::from_utf8_lossy(&res.stderr)));
+        }
+    }
+    rec.count(Some(hash_of(&format!("{}{}{}{}{}", kind, to.name(), big, debug, via_stdin))));
+    rec.class(if kind == "socket" { "stdout:socket_peer_gone" } else { "stdout:full_nonblocking_pipe" });
+    Ok(())
+}
+
 impl Check for C16 {
     fn id(&self) -> &'static str {
         "C16"
@@ -191,7 +231,7 @@ impl Check for C16 {
         "fault_enumeration"
     }
     fn rule(&self) -> String {
-        "The real binaries write to a pipe whose consumer (the harness) reads exactly k bytes and then closes its end: k = 0, 1..200, hundreds to 20,000, up to 300,000 (several pipe capacities); pipe capacity 4 KiB (F_SETPIPE_SZ) or the default 64 KiB; every target; input from one file, many files (so that the failing call is the per-input flush when each output is below the 8 KiB buffer, or a buffered write when above) or standard input; inputs are sized from the library's own output length so that more than a pipe capacity plus the 8 KiB buffer remains unwritten at k - the outcome is therefore decided by construction, not by timing. Oracle: wait status 'terminated by SIGPIPE', standard error empty. Unit 'devfull': stdout on /dev/full with outputs below and above the buffer size, one and several inputs, all targets, both binaries: exit 1 and an 'xt error' line. One evaluation = one process run; all are non-trivial; distinct by hash of the case parameters.".into()
+        "The real binaries write to a pipe whose consumer (the harness) reads exactly k bytes and then closes its end: k = 0, 1..200, hundreds to 20,000, up to 300,000 (several pipe capacities); pipe capacity 4 KiB (F_SETPIPE_SZ) or the default 64 KiB; every target; input from one file, many files (so that the failing call is the per-input flush when each output is below the 8 KiB buffer, or a buffered write when above) or standard input; inputs are sized from the library's own output length so that more than a pipe capacity plus the 8 KiB buffer remains unwritten at k - the outcome is therefore decided by construction, not by timing. Oracle: wait status 'terminated by SIGPIPE', standard error empty. Unit 'devfull': stdout on /dev/full with outputs below and above the buffer size, one and several inputs, all targets, both binaries: exit 1 and an 'xt error' line; the same outputs to a stream socket whose peer is gone (terminated by SIGPIPE, as with a pipe) and to a full pipe in non-blocking mode (exit 1 and an 'xt error' line). One evaluation = one process run; all are non-trivial; distinct by hash of the case parameters.".into()
     }
     fn assumptions(&self) -> Vec<String> {
         vec!["Linux pipe semantics: a write to a pipe with no reader fails with EPIPE (SIGPIPE is ignored by the Rust runtime until xt re-raises it)".into()]
@@ -205,13 +245,34 @@ impl Check for C16 {
     fn required_classes(&self, _tier: Tier) -> Vec<&'static str> {
         vec![
             "to:json", "to:yaml", "to:msgpack", "to:toml", "error_met_in_per_input_flush", "error_met_in_buffered_write", "input:stdin", "input:many_files", "input:one_file", "close:at_0", "close:within_first_capacity",
-            "close:after_several_capacities", "pipe:4KiB", "pipe:64KiB", "devfull:above_buffer", "devfull:below_buffer",
+            "close:after_several_capacities", "pipe:4KiB", "pipe:64KiB", "devfull:above_buffer", "devfull:below_buffer", "devfull:buffer_fills_inside_document", "stdout:socket_peer_gone", "stdout:full_nonblocking_pipe",
         ]
     }
     fn run_unit(&self, unit: &Unit, shard: u32, seed: u64, _tier: Tier, rec: &mut Recorder) {
         match unit.name {
             "pipe" => run_prop(rec, seed, unit.cases, case_strategy(), |c| c.to_json(), check_case),
             "devfull" => {
+                // the 8 KiB buffer fills up at every position of a document in turn:
+                // inside a string, at a bracket, at a ',' or ':' the serializer writes
+                // on its own
+                for pad in 8150..8215usize {
+                    for shape in 0..2 {
+                        let debug = shard == 0;
+                        let text = if shape == 0 { format!("[\"{}\",1,2,3,4,5,6,7,8,9]", "p".repeat(pad)) } else { format!("{{\"k\":\"{}\",\"a\":1,\"b\":2,\"c\":3,\"d\":4}}", "p".repeat(pad)) };
+                        let sc = Scratch::new("c16a");
+                        let args: Vec<OsString> = vec!["-fjson".into(), "-tjson".into()];
+                        let res = run_xt(if debug { Bin::Debug } else { Bin::Release }, &args, &sc.dir, StdinSpec::Bytes(text.into_bytes()), StdoutSpec::DevFull, vec![]);
+                        if res.code != Some(1) || !String::from_utf8_lossy(&res.stderr).starts_with("xt error") {
+                            rec.fail(
+                                format!("stdout on /dev/full, JSON {} with a string of {} bytes first (the buffer fills inside the document): expected exit 1 and an 'xt error' line, got {}", if shape == 0 { "array" } else { "object" }, pad, res.brief()),
+                                json!({"unit": "devfull_alignment", "pad": pad, "shape": shape, "debug": debug}),
+                            );
+                            return;
+                        }
+                        rec.count(Some(hash_of(&format!("align{}{}{}", pad, shape, debug))));
+                        rec.class("devfull:buffer_fills_inside_document");
+                    }
+                }
                 for to in FORMATS {
                     for big in [false, true] {
                         for many in [false, true] {
@@ -219,6 +280,12 @@ impl Check for C16 {
                             if let Err(m) = check_devfull(to, big, debug, many, rec) {
                                 rec.fail(m, json!({"unit": "devfull", "to": to.name(), "big": big, "debug": debug, "many": many}));
                                 return;
+                            }
+                            for kind in ["socket", "nonblocking"] {
+                                if let Err(m) = check_other_stdout(kind, to, big, debug, many, rec) {
+                                    rec.fail(m, json!({"unit": "other_stdout", "kind": kind, "to": to.name(), "big": big, "debug": debug, "stdin": many}));
+                                    return;
+                                }
                             }
                         }
                     }
@@ -229,6 +296,12 @@ impl Check for C16 {
     }
     fn replay(&self, case: &J) -> Result<(), String> {
         let mut rec = Recorder::default();
+        if case["unit"].as_str() == Some("devfull_alignment") {
+            return Err("re-run ./check C16 quick (fixed enumeration)".into());
+        }
+        if case["unit"].as_str() == Some("other_stdout") {
+            return check_other_stdout(case["kind"].as_str().ok_or("no kind")?, Fmt::from_name(case["to"].as_str().ok_or("no to")?).ok_or("bad to")?, case["big"].as_bool().unwrap_or(false), case["debug"].as_bool().unwrap_or(false), case["stdin"].as_bool().unwrap_or(false), &mut rec);
+        }
         if case["unit"].as_str() == Some("devfull") {
             return check_devfull(Fmt::from_name(case["to"].as_str().ok_or("no to")?).ok_or("bad to")?, case["big"].as_bool().unwrap_or(false), case["debug"].as_bool().unwrap_or(false), case["many"].as_bool().unwrap_or(false), &mut rec);
         }
